@@ -134,7 +134,7 @@ class C15(PropBase):
                 if "low_headroom_build" in sw and rng.random() < 0.25:
                     step["depth"] = rng.randint(880, 985)
                     step["low"] = True
-                elif "exhaust_scan" in sw and rng.random() < 0.35:
+                elif "exhaust_scan" in sw and rng.random() < 0.5:
                     # the build is first attempted from every stack depth at which it cannot
                     # complete (RecursionError one frame further in each time), then at normal depth
                     step["scan"] = True
